@@ -133,6 +133,15 @@ class Deco:
 deco = Deco()
 
 
+class Pair(tuple[int, int]): ...
+class Triple(tuple[int, str, float]):
+    def first(self) -> int: ...
+class VarTuple(tuple[int, ...]): ...
+v_pair: Pair = Pair((1, 2))
+v_triple: Triple = Triple((1, "", 1.0))
+v_vartuple: VarTuple = VarTuple((1,))
+
+
 class Col:
     """rich comparisons and operators that do not return what the operator usually returns"""
     def __eq__(self, other: object) -> "Col": ...  # type: ignore[override]
@@ -182,7 +191,7 @@ OPERANDS = [
     "deco.cp_int", "d_int_to_str", "d_same_int", "deco.m_changed()",
     # operators whose result type is decided by the operand's own methods (or is Any)
     "v_any == 1", "v_any < 1", "v_any != v_any", "v_int == v_any", "v_any in v_list", "v_int in v_any", "v_any is None", "not v_any", "-v_any", "v_any + 1", "v_any[0]",
-    "col == 1", "col != col", "col < 1", "col >= 1", "1 in col", "col + 1", "-col", "~col", "col[0]", "col()", "not col", "col is None", "1 < v_int < 3", "v_int == 1 == v_any",
+    "v_pair", "v_triple", "v_vartuple", "Pair((1, 2))", "v_pair[0]", "v_pair + v_pair", "v_triple.first()", "col == 1", "col != col", "col < 1", "col >= 1", "1 in col", "col + 1", "-col", "~col", "col[0]", "col()", "not col", "col is None", "1 < v_int < 3", "v_int == 1 == v_any",
     # attributes
     "c.attr_int", "c.attr_any", "c.cls_var", "C.cls_var", "c.inst_str", "c.prop_str", "v_nt.a", "v_path.name", "os.sep", "IE.A", "c.missing",
     # operators and subscripts
